@@ -123,6 +123,12 @@ func c03Check(c *rt.Ctx, sub int, x any, t reflect.Type, feat string, asciiOnly 
 		if strings.HasPrefix(e.name, "MarshalIndent") && !strings.Contains(e.name, "WithOption") {
 			// prefix " " at line starts is plain whitespace: still JSON
 		}
+		if !oracle.Recognise(body, 0) && passthroughFeature(feat) {
+			// bytes supplied by user code were copied: which lenience of the validator let them pass?
+			c.Violate(rt.Violation{Monitor: "enc-wellformed", Entry: e.name, Kind: "malformed-output:passthrough", Ctx: utilExplain(body) + " @ " + featTag(feat),
+				Detail: e.name + " succeeded with " + rt.Q(body) + " | type " + t.String(), Input: input, Sub: sub})
+			continue
+		}
 		if !oracle.Recognise(body, 0) {
 			c.Violate(rt.Violation{Monitor: "enc-wellformed", Entry: e.name, Kind: "malformed-output:" + outputClass(body), Ctx: featTag(feat),
 				Detail: e.name + " succeeded with " + rt.Q(body) + " | type " + t.String(), Input: input, Sub: sub})
@@ -351,6 +357,11 @@ func init() {
 						m[j] = Alphabet28[r.Intn(n)]
 						docs = append(docs, m, d[:j])
 					}
+				}
+				// token-level mutants of small texts with every kind of token in every position
+				tm := [][]byte{[]byte(`{"a":1,"b":[true,null,"s"],"c":{"d":-1.5e2}}`), []byte(`[{"k":"v"},[],{},"x",0]`), gen.Doc(r, 2)}
+				for _, m := range gen.TokenMutants(tm[k%len(tm)]) {
+					docs = append(docs, m)
 				}
 				sub := 0
 				for _, d := range docs {
